@@ -738,3 +738,88 @@ Proof.
       by (apply Qle_antisym; assumption).
     rewrite B5, B1 in E. rewrite <- (Qplus_0_l (_ * _)), <- E. ring.
 Qed.
+
+(* ------------------------------------------------------------ with the prices of ComputePrices *)
+From Knut Require Import Spec.PriceSpec Spec.PriceDaySpec Proofs.PriceDayProofs.
+Open Scope Q_scope.
+
+Lemma cp_day_txns v s d s1 d1 :
+  process_day (compute_prices_proc v) s d = ROk (s1, d1) -> d_txns d1 = d_txns d /\ d_prices d1 = d_prices d.
+Proof.
+  intros H. unfold process_day in H.
+  cbn [compute_prices_proc pr_day_start pr_price pr_open pr_close pr_day_end rbind fst snd] in H.
+  destruct (fold_res cp_price_cb s (d_prices d)) as [s2| |]; cbn [rbind] in H; try discriminate.
+  rewrite fold_txns_cp in H. cbn [rbind fst snd] in H.
+  rewrite fold_asserts_cp in H. cbn [rbind] in H.
+  unfold cp_day_end in H. cbn [d_prices d_date d_opens d_txns d_asserts d_closes d_normalized] in H.
+  destruct (d_prices d) as [|x l].
+  - injection H as <- <-. split; reflexivity.
+  - destruct (normalize (cp_prices s2) v); [|discriminate]. injection H as <- <-. split; reflexivity.
+Qed.
+
+Lemma cp_days_postings v ds : forall s s' ds',
+  process_days (compute_prices_proc v) s ds = ROk (s', ds') -> days_postings ds' = days_postings ds.
+Proof.
+  induction ds as [|d ds IH]; intros s s' ds' H; cbn [process_days] in H.
+  - injection H as <- <-. reflexivity.
+  - destruct (process_day (compute_prices_proc v) s d) as [[s1 d1]| |] eqn:E1; cbn [rbind fst snd] in H; try discriminate.
+    destruct (process_days (compute_prices_proc v) s1 ds) as [[s2 ds2]| |] eqn:E2; cbn [rbind fst snd] in H; try discriminate.
+    injection H as <- <-. unfold days_postings in *. cbn [map concat]. rewrite (IH _ _ _ E2).
+    unfold day_postings. destruct (cp_day_txns _ _ _ _ _ E1) as [-> _]. reflexivity.
+Qed.
+
+Lemma last_normalized_nth ds : forall n0, ds <> [] ->
+  exists d, nth_error ds (pred (length ds)) = Some d /\ last_normalized n0 ds = d_normalized d.
+Proof.
+  induction ds as [|d r IH]; intros n0 Hne; [contradiction|].
+  destruct r as [|d2 r2].
+  - exists d. split; reflexivity.
+  - destruct (IH (d_normalized d) ltac:(discriminate)) as (x & Hx & Hl). exists x. split; [exact Hx|exact Hl].
+Qed.
+
+(* C03 for the two stages in sequence: the price is the one in force on the last day according to
+   the declarations up to it (Spec/PriceDaySpec.v price_on: C12 "on a given day") *)
+Theorem mark_to_market_pipeline v a c ds0 s1 ds1 s2 ds2 :
+  account_ok a = true -> is_AL a = true -> c <> v -> ds0 <> [] ->
+  Forall posting_in_ok (days_postings ds0) ->
+  process_days (compute_prices_proc v) (mkCp [] None) ds0 = ROk (s1, ds1) ->
+  process_days (valuate_proc v) val_init ds1 = ROk (s2, ds2) ->
+  Qabs (cell_value a c (days_postings ds2)
+        - cell_qty a c (days_postings ds0) * price_value (price_on v ds0 (pred (length ds0))) c)
+    <= inject_Z (cell_count a c (days_postings ds2)) * eps8.
+Proof.
+  intros Ha HAL Hcv Hne Hin H1 H2.
+  pose proof (cp_days_postings _ _ _ _ _ H1) as EP.
+  destruct (compute_prices_days v _ _ _ H1) as [Hlen Hn].
+  assert (Hne1 : ds1 <> []) by (intros ->; destruct ds0; [contradiction|discriminate]).
+  destruct (last_normalized_nth ds1 None Hne1) as (d & Hd & Hl).
+  rewrite Hlen in Hd. rewrite <- (Hn _ _ Hd), <- Hl, <- EP.
+  apply (mark_to_market_stage v a c ds1 s2 ds2 Ha HAL Hcv); [rewrite EP; exact Hin|exact H2].
+Qed.
+
+(* prices are carried forward: a day without price declarations has the prices of the day before *)
+Lemma history_upto_snoc ds : forall k d,
+  nth_error ds (S k) = Some d -> history_upto ds (S k) = history_upto ds k ++ d_prices d.
+Proof.
+  induction ds as [|x r IH]; intros k d H; [discriminate|].
+  cbn [nth_error] in H. rewrite history_upto_S. destruct k as [|k].
+  - rewrite history_upto_0. destruct r as [|y r']; [discriminate|]. injection H as ->.
+    rewrite history_upto_0. reflexivity.
+  - rewrite history_upto_S, (IH _ _ H), app_assoc. reflexivity.
+Qed.
+
+Theorem prices_carried_forward v ds k d :
+  nth_error ds (S k) = Some d -> d_prices d = [] -> price_on v ds (S k) = price_on v ds k.
+Proof.
+  intros H Hp. unfold price_on. rewrite (history_upto_snoc _ _ _ H), Hp, app_nil_r. reflexivity.
+Qed.
+
+Theorem normalized_carried_forward v ds s' ds' k d d1 d2 :
+  process_days (compute_prices_proc v) (mkCp [] None) ds = ROk (s', ds') ->
+  nth_error ds (S k) = Some d -> d_prices d = [] ->
+  nth_error ds' k = Some d1 -> nth_error ds' (S k) = Some d2 ->
+  d_normalized d2 = d_normalized d1.
+Proof.
+  intros H Hd Hp H1 H2. destruct (compute_prices_days v _ _ _ H) as [_ Hn].
+  rewrite (Hn _ _ H1), (Hn _ _ H2). apply (prices_carried_forward v ds k d Hd Hp).
+Qed.
